@@ -140,13 +140,49 @@ class C07:
                 fault = (rng.choice(ids), rng.choice(("eval", "eval", "start", "stop")), rng.randint(1, 2))
         return dict(S=S, others=others, repeat=rng.randint(2, 4), fault=fault, nconc=rng.randint(2, 4), simseed=rng.getrandbits(32),
                     instr=1 if getattr(self, "instr", False) else 0,
+                    sweep=1 if getattr(self, "instr", False) and random.Random(seed ^ 0x5EE9).random() < 0.06 else 0,
                     gctx=1 if random.Random(seed ^ 0x6C7).random() < 0.4 else 0,
                     mix=rng.choice(("copies", "others", "mixed")),
                     clock=dict(seed=rng.getrandbits(32), stall_rate=rng.choice((0.05, 0.3)), stall_us=rng.choice((1000, 10 ** 7)), coarse=rng.choice((0, 1))))
 
+    sweep_max_sites = 400       # (a seeded sample of the 10 000+ candidate pairs: one run of the section costs 0.2 - 0.4 s)
+
+    def run_sweep(self, case):
+        """site sweep of the concurrent section (instrumented build, DESIGN 2.3): a profile run lists every (call site, thread) pair
+        entered while another executor's thread was runnable; the section is then run once per listed site with that call site as
+        the only extra pre-emption point. The first violating run is the outcome (its case carries the site)."""
+        import hashlib
+        base = dict(case, only="concurrent", sweep=0, instr=1)
+        self._last_sites = None
+        out0 = self.run(dict(base, instr_profile=1))
+        if out0.harness_error or out0.violation:
+            return out0
+        sites = self._last_sites or []
+        total = len(sites)
+        if total > self.sweep_max_sites:
+            sites = sorted(random.Random(case["simseed"]).sample(sites, self.sweep_max_sites))
+        agg = dict(out0.stats)
+        agg.update(sweep_scenarios=1, sweep_candidate_sites=total, sweep_site_runs=0)
+        h = hashlib.sha256(out0.digest.encode())
+        for (addr, thread, entries, sym) in sites:
+            out = self.run(dict(base, instr_site=addr))
+            agg["sweep_site_runs"] += 1
+            if out.harness_error:
+                return out
+            agg["scheduler_steps"] = agg.get("scheduler_steps", 0) + out.stats.get("scheduler_steps", 0)
+            agg["instr_preemption_points"] = agg.get("instr_preemption_points", 0) + out.stats.get("instr_preemption_points", 0)
+            if out.violation:
+                out.violation["detail"] = "[site sweep: only extra pre-emption point is call site 0x%s (%s)] %s" % (addr, sym or "?", out.violation.get("detail"))
+                out.stats = agg
+                out.case = dict(base, instr_site=addr)
+                return out
+        return Outcome(stats=agg, digest=h.hexdigest()[:16], nontrivial=True, sample=out0.sample, shape=out0.shape)
+
     def run(self, case, fresh=False):
         if case.get("kind") == "text":
             return self.run_text(case, fresh)
+        if case.get("sweep") and not fresh and not case.get("instr_site") and (getattr(self, "instr", False) or case.get("instr")):
+            return self.run_sweep(case)
         S = dataflow.normalise(case["S"])
         if case.get("fault"):
             S["faults"] = [tuple(case["fault"])]
@@ -155,7 +191,12 @@ class C07:
             # live state after every run, as testing::eval_node / lower() do)
             S["options"] = dict(S.get("options", {}), gctx=1)
         text = dataflow.emit(S)
-        ref = runner.run_fresh(text, san=self.san)
+        cache = getattr(self, "_ref_cache", None)
+        if cache is None or cache[0] != text or fresh:
+            ref = runner.run_fresh(text, san=self.san)
+            self._ref_cache = (text, ref)         # (a sweep runs the same scenario thousands of times: one reference run)
+        else:
+            ref = cache[1]
         if not ref.ok:
             return Outcome(harness_error="harness status=%s signal=%s timeout=%s tail=%s" % (ref.status, ref.signal, ref.timeout, ref.raw[-300:]), sample=text)
         for e in ref.events:
@@ -251,7 +292,10 @@ class C07:
             if getattr(self, "instr", False) or case.get("instr"):
                 # instrumented build: extra pre-emption points inside engine code, on average every <n> function calls
                 r = random.Random(case["simseed"])
-                ctext += "instr %d %d\n" % (r.choice((20, 100, 400, 2000)), r.choice((0, 30, 100, 300, -3000, -8000)))
+                if case.get("instr_profile") or case.get("instr_site"):
+                    ctext += "instr 2000 0 %s\n" % ("profile" if case.get("instr_profile") else "site=%s" % case["instr_site"])
+                else:
+                    ctext += "instr %d %d\n" % (r.choice((20, 100, 400, 2000)), r.choice((0, 30, 100, 300, -3000, -8000)))
                 variant = "instr"
             for i, p in enumerate(progs):
                 # (a GlobalContext is a per-thread selection: the concurrent executors run without one)
@@ -269,6 +313,8 @@ class C07:
                 phase = None
                 parts = {}
                 for e in r.events:
+                    if e["k"] == "sites":
+                        self._last_sites = [tuple(x) for x in e["v"]]
                     if e["k"] == "tape":
                         self._last_tape = [int(x) for x in e["v"].split(",")] if e["v"] else []
                     if e["k"] == "phase":
